@@ -91,6 +91,42 @@ func SelfTest() error {
 	if err := selfTestTokens(); err != nil {
 		return err
 	}
-	_ = bytes.Equal
+	return selfTestCompress()
+}
+
+type stepKnob struct{ n int }
+
+func (k *stepKnob) Intn(n int) int { k.n = k.n*1103515245 + 12345; return int(uint32(k.n)>>8) % n }
+
+func selfTestCompress() error {
+	// hand-assembled from the format descriptions
+	d, err := SnappyDecode([]byte{0x0a, 0x04, 'a', 'b', 0x1e, 0x02, 0x00})
+	if err != nil || string(d) != "ababababab" {
+		return fmt.Errorf("snappy reference decoder: %q %v", d, err)
+	}
+	d, err = SnappyDecode([]byte{0x0a, 0x04, 'a', 'b', 0x0d, 0x02, 0x00, 'c'}) // copy1: len 4+3=7, offset 2
+	if err != nil || string(d) != "ababababac" {
+		return fmt.Errorf("snappy reference decoder (copy1): %q %v", d, err)
+	}
+	d, err = CassandraLZ4Decode([]byte{0, 0, 0, 15, 0x24, 'a', 'b', 0x02, 0x00, 0x50, 'a', 'b', 'a', 'b', 'a'})
+	if err != nil || string(d) != "abababababababa" {
+		return fmt.Errorf("lz4 reference decoder: %q %v", d, err)
+	}
+	if _, err = CassandraLZ4Decode([]byte{0, 0, 0, 16, 0x24, 'a', 'b', 0x02, 0x00, 0x50, 'a', 'b', 'a', 'b', 'a'}); err == nil {
+		return fmt.Errorf("lz4 reference decoder accepts a block shorter than its prefix")
+	}
+	k := &stepKnob{n: 7}
+	for n := 0; n < 400; n++ {
+		src := make([]byte, n*3)
+		for i := range src {
+			src[i] = byte('a' + k.Intn(1+n%5))
+		}
+		if d, err := SnappyDecode(SnappyEncodeRef(src, k)); err != nil || !bytes.Equal(d, src) {
+			return fmt.Errorf("snappy reference encoder/decoder disagree at n=%d: %v", len(src), err)
+		}
+		if d, err := CassandraLZ4Decode(CassandraLZ4EncodeRef(src, k)); err != nil || !bytes.Equal(d, src) {
+			return fmt.Errorf("lz4 reference encoder/decoder disagree at n=%d: %v", len(src), err)
+		}
+	}
 	return nil
 }
